@@ -315,25 +315,29 @@ fn infeasible_after_feasible_life<K: Kit>(sc: &Scenario, seq: &[u8], rep: &mut R
         seams::set_valid_cap(50_000_000);
         let free = std::sync::Arc::new(crate::scen::build_world::<K>(&sc.spec, &WorldSpec { name: "free".into(), obst: vec![] }));
         rig.drv.setup(rig.pd.clone(), free);
-        if rig.is_prm() {
+        let found = if rig.is_prm() {
             let _ = rig.construct(seq);
-            let _ = rig.drv.solve(LONG);
+            rig.drv.solve(LONG).is_ok()
         } else {
-            let _ = rig.feed(seq);
-        }
+            rig.feed(seq).iter().any(|(r, _)| r.is_ok())
+        };
         let (pd, w) = (rig.pd.clone(), rig.world.clone());
         rig.drv.setup(pd, w);
-        if rig.is_prm() {
+        let res = if rig.is_prm() {
             let _ = rig.construct(seq);
             vec![rig.drv.solve(LONG).map(|p| p.len())]
         } else {
             rig.feed(seq).into_iter().map(|(r, _)| r.map(|p| p.len())).collect::<Vec<_>>()
-        }
+        };
+        (found, res)
     });
     match run {
         Err(c) => caught_to_report(sc, "infeasible-after-feasible-life", seq, c, rep),
-        Ok(results) => {
+        Ok((found, results)) => {
             rep.count("infeasible_after_feasible_life_cases", 1);
+            if found {
+                rep.count(&format!("feasible_life_paths_{pk}"), 1);
+            }
             for r in results {
                 if let Ok(n) = r {
                     rep.violate(format!("C06|{pk}|path-claimed-in-infeasible-world|after-feasible-life|{}", sc.world.name), format!("after a re-setup in an infeasible world ({}) a path of {n} states was returned", sc.world.name), || replay(sc, "infeasible-after-feasible-life", seq, json!({})));
@@ -465,7 +469,9 @@ fn jobs(tier: &str) -> Vec<Job> {
                 for sm in [1.0, 1e6] {
                     let roots: Vec<u8> = if pk == Pk::Connect { vec![0, 1] } else { vec![0] };
                     for root in roots {
-                        let mut sc = b.scenario(w.clone(), b.params(pk, sm, 2.5, 0.0), &format!("C06/infeasible/{kit}/{}/{}x{sm}/root{root}", w.name, pk.name()));
+                        // PRM links strictly inside its radius and the alphabet's neighbours are exactly one unit apart
+                        let smm = if pk == Pk::Prm && sm == 1.0 { 1.6 } else { sm };
+                        let mut sc = b.scenario(w.clone(), b.params(pk, smm, 2.5, 0.0), &format!("C06/infeasible/{kit}/{}/{}x{sm}/root{root}", w.name, pk.name()));
                         sc.goal_root = root;
                         let depth = match (thorough, deep) {
                             (false, true) => 3,
@@ -539,7 +545,7 @@ pub fn run(tier: &'static str) -> i32 {
             "time is logical: the bound `T plus one iteration` is decided as `the deadline is consulted before every iteration and nothing but the rest of the current iteration runs after it has passed` plus `one iteration is finite` (DESIGN 1.3)".into(),
             "a sampler call is the first action of every iteration in all four planners".into(),
         ],
-        must_be_positive: vec!["landings", "landing_timeouts", "landing_successes_in_the_same_iteration", "landed_in_callback_kind_0", "landed_in_callback_kind_1", "landed_in_callback_kind_2", "landed_in_callback_kind_3", "infeasible_after_feasible_life_cases", "infeasible_seeded_runs", "zero_timeout_calls", "work_cap_cases", "infeasible_Timeout", "infeasible_NoSolutionFound"],
+        must_be_positive: vec!["landings", "landing_timeouts", "landing_successes_in_the_same_iteration", "landed_in_callback_kind_0", "landed_in_callback_kind_1", "landed_in_callback_kind_2", "landed_in_callback_kind_3", "infeasible_after_feasible_life_cases", "infeasible_seeded_runs", "feasible_life_paths_PRM", "feasible_life_paths_RRT", "feasible_life_paths_RRTStar", "feasible_life_paths_RRTConnect", "zero_timeout_calls", "work_cap_cases", "infeasible_Timeout", "infeasible_NoSolutionFound"],
     };
     finish(&meta, rep, t0)
 }
